@@ -78,3 +78,12 @@ Definition fix_meets_spec (c : fix_case) : bool :=
     qeqb (c_high r) (qmax (c_high k) (c_close prev)) && qeqb (c_low r) (qmin (c_low k) (c_close prev)) &&
     qeqb (c_ts r) (c_ts k) && qeqb (c_vol r) (c_vol k)
   else true.
+
+(* fills of one minute (LIMIT/STOP orders, in execution order) must be met in this order when walking the candle's path *)
+Fixpoint alongb (ws : list Qc) (ps : list Qc) : bool :=
+  match ps with
+  | [] => true
+  | p :: r => match cut ws p with Some ws' => alongb ws' r | None => false end
+  end.
+Definition minute_case := (cndl * list Qc)%type.
+Definition fills_follow_path (c : minute_case) : bool := let '(k, ps) := c in alongb (path k) ps.
